@@ -4,6 +4,7 @@ CONSTANTS
   GenDepth = 0
   MaxT = 18
   MaxAdm = 4
+  MaxReloads = 0
   MaxN = 2
   RuleSets <- SetsAll
 CONSTRAINT StateBound
